@@ -332,8 +332,10 @@ def crash_signature(tail):
 
 def main():
     args = sys.argv[1:]
+    replay_key = None
     if len(args) >= 2 and args[0] == "--replay":
         rp = json.load(open(args[1]))
+        replay_key = rp.get("key")
         os.environ["VERIF_SEED"] = str(rp.get("seed", 1))
         prop, tier = rp["property"], rp["tier"]
         log("replaying %s %s seed=%s; expecting violation key %s" % (prop, tier, rp.get("seed"), rp.get("key")))
@@ -523,6 +525,9 @@ def main():
         log("VIOLATION property=%s replay=%s key=%s :: %s" % (prop, rp, v["key"], v["what"]))
     log("%s %s seed=%d: verdict=%s evaluations=%d distinct_nontrivial=%d violations=%d known=%d wall=%.1fs" %
         (prop, tier, seed, verdict, evals, distinct, len(new_viol), len(known_hits), wall))
+    if replay_key is not None:
+        hit = replay_key in violations
+        log("REPLAY property=%s key=%s : %s" % (prop, replay_key, "reproduced" if hit else "NOT reproduced on this tree"))
     if new_viol:
         return 1
     if evals < FLOOR or distinct < 2:
